@@ -89,16 +89,24 @@ pub fn main(args: &[String]) {
                 // every even offset set to 0xFFFFFFFF / 0xFFFFFFFE, sampled by --wide-stride
                 if bytes.len() < 400_000 {
                     if let Ok(f) = read_fonts::FontRef::new(&bytes) {
-                        if let Some(d) = f.data_for_tag(font_types::Tag::new(b"COLR")) {
+                        for rec in f.table_directory.table_records() {
+                            let tag = rec.tag();
+                            // bulk outline data is left to the other mutation families
+                            if [b"glyf", b"CFF ", b"CFF2", b"SVG ", b"CBDT", b"EBDT", b"sbix", b"name", b"post"].iter().any(|t| tag == font_types::Tag::new(t)) {
+                                continue;
+                            }
+                            let Some(d) = f.data_for_tag(tag) else { continue };
+                            let colr = tag == font_types::Tag::new(b"COLR");
+                            let stride = if colr { wide_stride } else { wide_stride * 12 };
                             let off = d.as_bytes().as_ptr() as usize - bytes.as_ptr() as usize;
-                            for p in (0..d.len().saturating_sub(4).min(8000)).step_by(2) {
+                            for p in (0..d.len().saturating_sub(4).min(if colr { 8000 } else { 2400 })).step_by(2) {
                                 for (i, v) in [0xFFFF_FFFFu32, 0xFFFF_FFFE].into_iter().enumerate() {
-                                    if (p / 2 + i + seed as usize) % wide_stride != 0 {
+                                    if (p / 2 + i + seed as usize) % stride != 0 {
                                         continue;
                                     }
                                     let mut b = bytes.clone();
                                     b[off + p..off + p + 4].copy_from_slice(&v.to_be_bytes());
-                                    judge(&name, &format!("COLR u32 at {p} = {v:#x}"), &b, 1, &mut ev, &mut rep);
+                                    judge(&name, &format!("{tag} u32 at {p} = {v:#x}"), &b, 1, &mut ev, &mut rep);
                                     rep.add("wide_index_mutations", 1);
                                 }
                             }
@@ -317,7 +325,7 @@ pub fn main(args: &[String]) {
         }
         Some("vm") => {
             let path = arg_after(args, "--programs").expect("--programs");
-            crate::vm::replay(&path, &mut ev, &mut rep);
+            crate::vm::replay_sizes(&path, args.iter().any(|a| a == "--huge"), &mut ev, &mut rep);
         }
         _ => {
             eprintln!("usage: fv-total c02 corpus --seed N --mutations K --out t.ndjson");
